@@ -308,7 +308,7 @@ def one(ctx, rng, k):
 
 def run_shard(ctx):
     logging.getLogger("pymoca").setLevel(logging.CRITICAL)
-    for k in range(ctx.n(1200, 20000)):
+    for k in range(ctx.n(4000, 20000)):
         if ctx.out_of_time():
             break
         ctx.guarded(one, ctx, ctx.rng, k, timeout=30)
